@@ -51,7 +51,7 @@ import (
 func TestC08(t *testing.T) {
 	r := report.Start("C08")
 	defer r.Finish()
-	nh := r.Pick(96, 2400)
+	nh := r.Cases(96, 2400)
 	for i := 0; i < nh; i++ {
 		id := fmt.Sprintf("hist/%d", i)
 		if !r.Want(id, i) {
